@@ -128,7 +128,8 @@ func lnumberValue(expr ast.Expr) (LNumber, bool) {
 	if ex, ok := expr.(*ast.NumberExpr); ok {
 		lv, err := parseNumber(ex.Value)
 		if err != nil {
-			lv = LNumber(math.NaN())
+			// not a constant: compileExpr reports the malformed number
+			return 0, false
 		}
 		return lv, true
 	} else if ex, ok := expr.(*constLValueExpr); ok {
@@ -1156,7 +1157,7 @@ func compileExpr(context *funcContext, reg int, expr ast.Expr, ec *expcontext) i
 	case *ast.NumberExpr:
 		num, err := parseNumber(ex.Value)
 		if err != nil {
-			num = LNumber(math.NaN())
+			raiseCompileError(context, sline(ex), "malformed number near '%s'", ex.Value)
 		}
 		code.AddABx(OP_LOADK, sreg, context.ConstIndex(num), sline(ex))
 		return sused
